@@ -124,6 +124,11 @@ func (ci *crdIpam) handleFIPUnassign(obj interface{}) error {
 	if !ok {
 		return fmt.Errorf("%s already been released", ipStr)
 	}
+	if _, ok := allocated.Labels[constant.ReserveFIPLabel]; !ok {
+		// the reserved ip has been released and allocated again before this event arrives, the cached record isn't
+		// the reservation which was deleted
+		return fmt.Errorf("%s is no longer reserved, it is allocated to %s", ipStr, allocated.Key)
+	}
 	ci.syncCacheAfterDel(allocated)
 	glog.Infof("released reserved ip %s", ipStr)
 	return nil
